@@ -12,11 +12,15 @@ import (
 	"path/filepath"
 	"runtime"
 	"strings"
+	"time"
 
 	"github.com/Dash-Industry-Forum/livesim2/internal/vshim/vrt"
 	"github.com/Dash-Industry-Forum/livesim2/pkg/logging"
 	"github.com/go-chi/chi/v5"
 )
+
+// the local time zone is environment: neither UTC nor whole hours away from it (see the livesim2 harness)
+func init() { time.Local = time.FixedZone("VERIF", -(3*3600 + 30*60)) }
 
 type rTrack struct {
 	name, ext string
